@@ -113,12 +113,24 @@ impl CommitTree {
                 .filter_map(|i| leaves.get(*i).cloned())
                 .collect::<Vec<_>>();
             if leaves_to_prove.len() == indices_to_prove.len() {
-                if proof.verify(
-                    other_root.into(),
-                    indices_to_prove.as_slice(),
-                    leaves_to_prove.as_slice(),
-                    *length,
-                ) {
+                // The proof only binds the proven leaves to the
+                // other root; a tree that is not longer than this
+                // one is contained only when it is a prefix of it
+                let is_prefix = match leaves.get(..*length) {
+                    Some(prefix) => {
+                        MerkleTree::<Sha256>::from_leaves(prefix).root()
+                            == Some(other_root.into())
+                    }
+                    None => true,
+                };
+                if is_prefix
+                    && proof.verify(
+                        other_root.into(),
+                        indices_to_prove.as_slice(),
+                        leaves_to_prove.as_slice(),
+                        *length,
+                    )
+                {
                     Ok(Comparison::Contains(indices_to_prove.to_vec()))
                 } else {
                     Ok(Comparison::Unknown)
